@@ -5,7 +5,7 @@ from props.C01 import adversary
 
 rule = ("SMA, WMA, SD, BB, MAD, MIN, MAX (scalar streams) and CCI, MFI (bar streams): streams generated identically by the harness and by "
         "the Coq model from a 63-bit xorshift seed (twin generators: uniform, random walk, alternating extremes of the band, spikes, "
-        "plateaus, saw-tooth, flat) inside a price band [m, 1000m], m in {1e-3, 1, 1e6}, periods {1,2,3,10,100} (quick, 2*10^4 inputs) / "
+        "plateaus, saw-tooth, flat, spikes followed by an almost-flat level) inside a price band [m, 1000m], m in {1e-3, 1, 1e6}, periods {1,2,3,10,100} (quick, 2*10^4 inputs) / "
         "up to 1000 and 2*10^6 inputs (thorough), no reset. At ~40 checkpoints and at the end: bit-exact equality with the float model, "
         "equality of a rolling hash over ALL outputs, and agreement within tau+(t)*maxmag with a fresh exact-rational instance fed only "
         "the current window (from-scratch value). Plus the K7 adversary for WMA (known finding). Non-trivial: distinct case (all are longer "
@@ -27,7 +27,7 @@ def run(ctx):
     k = 0
     for ind in SCALAR + BARS:
         for p in periods:
-            regimes = list(range(7))
+            regimes = list(range(8))
             r.shuffle(regimes)
             for g in regimes[: (2 if not ctx.thorough else 4)]:
                 m = r.choice(bands)
